@@ -284,13 +284,20 @@ def processLine (ln : Nat) (line : String) : M Unit := do
     let cs := (parseCS nn rest).1
     match ← getSlot (tokNat s) with
     | some p =>
-      if p.n != nn then bad ln s!"history arg: space dimension {nn}, expected {p.n}"
+      if p.n != nn then
+        bad ln s!"history arg: space dimension {nn}, expected {p.n}"
+        setSlot (tokNat s) (some (mk nn cs))
       else if c03 then
-        if subsetB nn p.cs cs then ok ln else bad ln "history arg: the reported set lost points without a mutator"
+        -- every reading of an object contains its internal set; for inexact T a later reading (reduced form)
+        -- may be weaker than an earlier one: keep the tightest reading as the argument
+        if subsetB nn p.cs cs then ok ln
+        else
+          bad ln "history arg: the reported set lost points without a mutator"
+          setSlot (tokNat s) (some (mk nn cs))
       else
         if equivB nn p.cs cs then ok ln else bad ln "history arg: the reported set changed without a mutator"
-    | none => pure ()
-    setSlot (tokNat s) (some (mk nn cs))
+        setSlot (tokNat s) (some (mk nn cs))
+    | none => setSlot (tokNat s) (some (mk nn cs))
   | "op" :: s :: name :: args =>
     let si := tokNat s
     match ← getSlot si with
